@@ -624,8 +624,8 @@ def derived_data(ctx, rule="C02.derived-data"):
             ctx.ob(rule, f.site, bad is None, "" if bad is None else f"`{ast.unparse(bad)[:60]}`: the matrix of a Decomposition object is replaced "
                    "after construction - U1 / U2 / Sq / identity flags computed in __init__ still describe the old matrix",
                    role="p-rebound", line=(bad.lineno if bad is not None else f.node.lineno))
-    ctx.require(n >= 8, f"only {n} methods of Decomposition classes found in ops.py")
-    ctx.floor(rule, 8)
+    ctx.require(n >= 4, f"only {n} methods of Decomposition classes found in ops.py")
+    ctx.floor(rule, 4)
 
 
 def graph_identity(ctx, rule="C02.elision"):
@@ -672,7 +672,7 @@ def graph_identity(ctx, rule="C02.elision"):
         ctx.ob(rule, f.site, bad is None, "" if bad is None else f"`if {ast.unparse(bad.test)[:50]}`: the commands of {cls.name} are emitted only when "
                f"the adjacency matrix is not the identity ({sorted(flags)}), but the identity matrix is a non-trivial graph: the embedding is dropped",
                role="graph-identity-shortcut", line=(bad.lineno if bad is not None else f.node.lineno))
-    ctx.require(n >= 2, f"only {n} graph-embedding decompositions found in ops.py")
+    ctx.require(n >= 1, f"only {n} graph-embedding decompositions found in ops.py")
 
 
 def rules(ctx):
@@ -692,5 +692,5 @@ def rules(ctx):
     from . import common_backend as _Bk
     _Bk.polar_pair(ctx, "C02.polar", ("ops.py", "decompositions.py"))
     nu = _Bk.unitary_from_symplectic(ctx, "C02.block-sign", ("ops.py",))
-    ctx.require(nu >= 3, f"only {nu} unitary-from-symplectic extractions found in ops.py")
-    ctx.floor("C02.block-sign", 3)
+    ctx.require(nu >= 1, f"only {nu} unitary-from-symplectic extractions found in ops.py")
+    ctx.floor("C02.block-sign", 1)
